@@ -26,7 +26,16 @@ pub fn c09(ctx: &Ctx, subj: &dyn DynSubject, ty: &Ty, rep: &mut Report) {
     // measurements are process-wide and sequential: a deterministic sample of the subjects is used
     let replaying = REPLAY_VAL.with(|c| c.borrow().is_some());
     let stride = if ctx.tier == Tier::Thorough { 3 } else { 12 };
-    if !replaying && !subj.name().contains("DropAudit") && vmodel::mix_seed(&[subj.name()], ctx.seed) % stride != 0 {
+    // types with arrays of deep-copy items (partially built on a failure) and with destructors are always in
+    fn has_deep_array(ctx: &Ctx, t: &Ty) -> bool {
+        match t {
+            Ty::Array(e, _) if !ctx.u.is_zero(e) && t.array_len() >= 2 => true,
+            Ty::Phantom(_) => false,
+            _ => ctx.u.components(t).iter().any(|c| has_deep_array(ctx, c)),
+        }
+    }
+    let always = subj.name().contains("DropAudit") || (has_deep_array(ctx, ty) && vmodel::mix_seed(&[subj.name()], ctx.seed) % 3 == 0);
+    if !replaying && !always && vmodel::mix_seed(&[subj.name()], ctx.seed) % stride != 0 {
         *rep.excluded.entry("subjects not sampled for the sequential leak measurements".into()).or_default() += 1;
         return;
     }
@@ -65,8 +74,19 @@ pub fn c09(ctx: &Ctx, subj: &dyn DynSubject, ty: &Ty, rep: &mut Report) {
         causes.push(("wrong alignment hash".into(), Some(flip(23))));
         causes.push(("truncated in the header".into(), Some(bytes[..20.min(bytes.len())].to_vec())));
         if bytes.len() > enc.header_len + 1 {
-            let k = enc.header_len + 1 + ent.pick(bytes.len() - enc.header_len - 1);
-            causes.push((format!("truncated at {} of {}", k, bytes.len()), Some(bytes[..k].to_vec())));
+            // a random cut, and cuts just after the starts of fields / items (partially built aggregates)
+            let mut ks = vec![enc.header_len + 1 + ent.pick(bytes.len() - enc.header_len - 1)];
+            let inner: Vec<usize> = enc.boundaries.iter().copied().filter(|b| *b > enc.header_len && *b + 1 < bytes.len()).collect();
+            for j in 0..4usize {
+                if !inner.is_empty() {
+                    ks.push(inner[(j * inner.len() / 4 + ent.pick(inner.len().div_ceil(4))).min(inner.len() - 1)] + 1);
+                }
+            }
+            ks.sort();
+            ks.dedup();
+            for k in ks {
+                causes.push((format!("truncated at {} of {}", k, bytes.len()), Some(bytes[..k].to_vec())));
+            }
         }
         if let Some(t) = enc.tags.first() {
             let mut m = bytes.clone();
@@ -111,20 +131,25 @@ pub fn c09(ctx: &Ctx, subj: &dyn DynSubject, ty: &Ty, rep: &mut Report) {
                     }
                 };
                 let must_fail = !cause.starts_with("truncated at") || matches!(loader, Loader::LoadFull);
-                attempt(must_fail)?; // warm-up (lazy initialisation inside std / the OS layer)
+                // warm-up (lazy initialisation inside std / the OS layer): a full round, so that only steady-state
+                // growth is measured
+                for _ in 0..reps {
+                    attempt(must_fail)?;
+                }
                 let heap0 = crate::alloc::live_bytes();
                 let maps0 = maps_lines_with(&path);
                 let vm0 = vm_pages();
                 for _ in 0..reps {
                     attempt(must_fail)?;
                 }
-                log.extra_evals += reps as u64 + 1;
-                log.extra_nontrivial.push(hash_sub(subj.name(), v0, cause, loader as u64, 0));
+                // (read the counters before the harness itself allocates anything)
                 let heap1 = crate::alloc::live_bytes();
                 let maps1 = maps_lines_with(&path);
                 let vm1 = vm_pages();
+                log.extra_evals += 2 * reps as u64;
+                log.extra_nontrivial.push(hash_sub(subj.name(), v0, cause, loader as u64, 0));
                 let env = json!({"cause": cause, "loader": format!("{:?}", loader), "flags": flags, "file_len": data.as_ref().map(|d| d.len())});
-                if crate::alloc::enabled() && heap1 - heap0 > 512 {
+                if crate::alloc::enabled() && heap1 - heap0 > 0 {
                     return Err(Fail::new(&format!("failed-load-leaks-heap:{:?}", loader), format!("{} failing {:?} loads ({}) left {} more heap bytes live (file of {} bytes)", reps, loader, cause, heap1 - heap0, data.as_ref().map_or(0, |d| d.len()))).env(env));
                 }
                 if maps1 > maps0 {
